@@ -3,6 +3,7 @@ package scen
 import (
 	"encoding/json"
 	"fmt"
+	"sort"
 	"strings"
 	"sync/atomic"
 	"time"
@@ -85,6 +86,26 @@ func scenSUB(s *sched.Sim, cfg Config, res *Result) {
 	wf.Subscriptions = true
 	of := opFeatures(s, cfg)
 	of.MultiOp = false
+	// C18 runs this scenario for one check: a subscription that has ended upstream is torn down while
+	// its connection lives on
+	endMode := cfg.Prop == "C18"
+	var allSeen atomic.Int32
+	var checked atomic.Bool
+	if endMode {
+		prop = "C18"
+		defer func() {
+			kept := res.Violations[:0]
+			for _, v := range res.Violations {
+				if strings.HasPrefix(v.Signature, "C18/listener-outlives") || strings.HasPrefix(v.Signature, "C18/hang") {
+					kept = append(kept, v)
+				}
+			}
+			res.Violations = kept
+			if len(kept) == 0 && res.Verdict == "violation" {
+				res.Verdict = "ok"
+			}
+		}()
+	}
 	detMode := cfg.Prop == "C13"
 	if detMode {
 		// C13 runs this scenario with upstreams that emit one and the same event repeatedly and
@@ -130,7 +151,14 @@ func scenSUB(s *sched.Sim, cfg Config, res *Result) {
 		for j := 0; j < k; j++ {
 			sp := &subSpec{conn: c, id: fmt.Sprintf("s%d", j+1), alias: fmt.Sprintf("ev_c%d_s%d", c, j+1)}
 			sp.op = gql.GenOpAliased(s.T, w, w.Union, ast.Subscription, of, 4, 12, sp.alias)
-			if j > 0 && gc.CacheTTL != "" && s.T.Bool(1, 2) {
+			if c > 0 && j == 0 && gc.CacheTTL != "" && len(specs) > 0 && s.T.Bool(1, 2) {
+				// the same subscription text as the first one of connection 0, started from another
+				// connection at about the same time: both handlers get the same cached plan object
+				prev := specs[0]
+				sp.alias, sp.op = prev.alias, prev.op
+				sp.twinOf = prev
+				res.Probe("sub.identical-subscription-on-two-connections")
+			} else if j > 0 && gc.CacheTTL != "" && s.T.Bool(1, 2) {
 				// an identical subscription (same text) on the same connection: with the caching
 				// planner both entries get the same plan object
 				prev := specs[len(specs)-1]
@@ -157,7 +185,11 @@ func scenSUB(s *sched.Sim, cfg Config, res *Result) {
 			sp.script = sc
 			if sp.twinOf != nil {
 				sp.script = sp.twinOf.script
-				sp.nth = sp.twinOf.nth + 1
+				for _, o := range specs {
+					if o.alias == sp.alias {
+						sp.nth++
+					}
+				}
 			}
 			specs = append(specs, sp)
 			if sp.twinOf == nil {
@@ -220,6 +252,47 @@ func scenSUB(s *sched.Sim, cfg Config, res *Result) {
 					}
 				}
 				cl.waitFrames(sp.id, want, 120*time.Second)
+			}
+			if endMode {
+				// every client has seen what its upstreams will emit; a while later the subscriptions
+				// whose upstream said complete must be gone - the connections are still open
+				allSeen.Add(1)
+				for int(allSeen.Load()) < nConn {
+					// (the others poll for frames on the simulated clock: let it run)
+					time.Sleep(50 * time.Millisecond)
+				}
+				if c == 0 {
+					// let everything that can still happen happen
+					for i := 0; i < 200000 && !s.Quiet(); i++ {
+						s.Park("wait-rest")
+					}
+					open := 0
+					for _, sp := range specs {
+						ended := false
+						for _, ev := range sp.script.events {
+							if ev.kind == "complete" {
+								ended = true
+							}
+						}
+						if !ended {
+							open++
+						}
+					}
+					var listeners []string
+					for _, a := range s.Alive() {
+						if strings.HasPrefix(a, "sub.listen:") {
+							listeners = append(listeners, a)
+						}
+					}
+					if len(listeners) > open {
+						res.Violate(prop+"/listener-outlives-its-subscription", "%d subscriptions are still open upstream, but %d listener goroutines are alive after every upstream had sent its last frame and the system has come to rest (connections still open): %v", open, len(listeners), listeners)
+					}
+					res.Probe("sub.checked-listeners-after-upstream-complete")
+					checked.Store(true)
+				}
+				for !checked.Load() {
+					time.Sleep(50 * time.Millisecond)
+				}
 			}
 			if stopFirst[c] {
 				for _, sp := range mine {
@@ -308,10 +381,25 @@ func scenSUB(s *sched.Sim, cfg Config, res *Result) {
 					continue
 				}
 				k++
+				// the same data and the same set of errors (their relative order may vary)
+				canon := string(got[j].Payload)
+				var pl struct {
+					Data   interface{}              `json:"data"`
+					Errors []map[string]interface{} `json:"errors"`
+				}
+				if json.Unmarshal(got[j].Payload, &pl) == nil {
+					db, _ := json.Marshal(pl.Data)
+					var es []string
+					for _, e := range pl.Errors {
+						es = append(es, errKey(e))
+					}
+					sort.Strings(es)
+					canon = string(db) + " errors=" + strings.Join(es, " | ")
+				}
 				if first == "" {
-					first = string(got[j].Payload)
-				} else if string(got[j].Payload) != first {
-					res.Violate(prop+"/event-payloads-differ", "subscription %s: the upstream sent the same event %d times; delivery 1 is %s\ndelivery %d is %s\nop: %s", sp.id, k, clipStr(first, 400), k, clipStr(string(got[j].Payload), 400), sp.op.Text)
+					first = canon
+				} else if canon != first {
+					res.Violate(prop+"/event-payloads-differ", "subscription %s: the upstream sent the same event %d times; delivery 1 is %s\ndelivery %d is %s\nop: %s", sp.id, k, clipStr(first, 400), k, clipStr(canon, 400), sp.op.Text)
 					break
 				}
 			}
